@@ -2334,6 +2334,12 @@ impl<T: Storage> Raft<T> {
                 {
                     return Ok(());
                 }
+                // A granted pre-vote carries the term it was asked for. One that does
+                // not name our next term answers an earlier pre-campaign of this node
+                // (we have since reached that term); it is not a vote in this round.
+                if self.state == StateRole::PreCandidate && !m.reject && m.term != self.term + 1 {
+                    return Ok(());
+                }
 
                 self.poll(m.from, m.get_msg_type(), !m.reject);
                 self.maybe_commit_by_vote(&m);
